@@ -12,12 +12,18 @@ SECS = ["mtu", "tcp_req", "tcp_resp", "http_req", "http_resp"]
 
 
 def generate(R, tier):
-    n = 1500 if tier == "quick" else 150000
+    n = 3000 if tier == "quick" else 150000
     for _ in range(n):
         labels = [D.rand_label(R, "tcp") for _ in range(R.randint(1, 3))]
         mlabels = [D.rand_label(R, "mtu") for _ in range(2)] + [R.choice(labels)]
         lines = []
-        for kind, d in R.sample(D.SECTIONS, R.randint(2, 5)):
+        secs = R.sample(D.SECTIONS, R.randint(2, 5))
+        if R.random() < 0.4:                        # a section may be continued further down: its records accumulate
+            secs += [R.choice(secs) for _ in range(R.randint(1, 2))]
+        if R.random() < 0.3:                        # label texts with blank + ';' / '#' inside: plain characters, not comments
+            labels = [l + R.choice([" ;-)", " ; x", "\t;y", " #1"]) for l in labels]
+            mlabels = [l + R.choice([" ; PPPoE", " ;)"]) for l in mlabels[:2]] + [R.choice(labels)]
+        for kind, d in secs:
             lines.append(D.sec_header(kind, d))
             for _ in range(R.randint(1, 4)):
                 lab = R.choice(mlabels if kind == "mtu" else labels)
